@@ -3,6 +3,8 @@ package ptracer
 import (
 	"syscall"
 	"unsafe"
+
+	"golang.org/x/sys/unix"
 )
 
 // ptrace constants
@@ -21,19 +23,32 @@ func ptrace(request int, pid int, addr uintptr, data uintptr) (err error) {
 	return
 }
 
+// ptraceIovec issues a ptrace request whose data argument is the address of an iovec. The
+// conversion of that address to uintptr must be part of the syscall's own argument list: passed
+// through another Go function as a uintptr, the iovec (a local, like the buffer it points to)
+// is no longer tracked, and a stack growth on the way to the syscall leaves the kernel writing
+// to the old copy of the stack while the caller reads zeroes.
+func ptraceIovec(request int, pid int, addr uintptr, iov *unix.Iovec) (err error) {
+	_, _, e1 := syscall.Syscall6(syscall.SYS_PTRACE, uintptr(request), uintptr(pid), addr, uintptr(unsafe.Pointer(iov)), 0, 0)
+	if e1 != 0 {
+		err = e1
+	}
+	return
+}
+
 func ptraceGetRegSet(pid int, regs *syscall.PtraceRegs) error {
 	iov := getIovec((*byte)(unsafe.Pointer(regs)), int(unsafe.Sizeof(*regs)))
-	return ptrace(syscall.PTRACE_GETREGSET, pid, NT_PRSTATUS, uintptr(unsafe.Pointer(&iov)))
+	return ptraceIovec(syscall.PTRACE_GETREGSET, pid, NT_PRSTATUS, &iov)
 }
 
 func ptraceSetRegSet(pid int, regs *syscall.PtraceRegs) error {
 	iov := getIovec((*byte)(unsafe.Pointer(regs)), int(unsafe.Sizeof(*regs)))
-	return ptrace(syscall.PTRACE_SETREGSET, pid, NT_PRSTATUS, uintptr(unsafe.Pointer(&iov)))
+	return ptraceIovec(syscall.PTRACE_SETREGSET, pid, NT_PRSTATUS, &iov)
 }
 
 func ptraceArm64SetSyscall(pid int, syscallNo int) error {
 	iov := getIovec((*byte)(unsafe.Pointer(&syscallNo)), int(unsafe.Sizeof(syscallNo)))
-	return ptrace(syscall.PTRACE_SETREGSET, pid, NT_ARM_SYSTEM_CALL, uintptr(unsafe.Pointer(&iov)))
+	return ptraceIovec(syscall.PTRACE_SETREGSET, pid, NT_ARM_SYSTEM_CALL, &iov)
 }
 
 func ptraceArmSetSyscall(pid int, syscallNo int) error {
